@@ -19,11 +19,11 @@ pub struct Case {
 }
 
 pub const PAGES: [usize; 8] = [0, 4096, 8192, 16384, 256, 512, 1024, 2048];
-pub const PAYLOADS: [&str; 15] = [
+pub const PAYLOADS: [&str; 17] = [
     "u64", "P1A1D", "P3A1", "P3A1D", "P8A8D", "P6A2D", "P24A4D", "P24A16D", "P100A4", "P100A1D", "P500A2D", "P1000A16D",
-    "P2000A8D", "Heapy", "FaultyDrop",
+    "P2000A8D", "Heapy", "FaultyDrop", "P40A32D", "P64A64D",
 ];
-const PAYLOAD_SIZES: [usize; 15] = [8, 1, 3, 3, 8, 6, 24, 32, 100, 100, 500, 1008, 2000, 56, 16];
+const PAYLOAD_SIZES: [usize; 17] = [8, 1, 3, 3, 8, 6, 24, 32, 100, 100, 500, 1008, 2000, 56, 16, 128, 160];
 
 pub struct C15;
 
@@ -69,7 +69,9 @@ pub fn run_case(case: &Case) -> Outcome {
         11 => go!(cq::P1000A16D),
         12 => go!(cq::P2000A8D),
         13 => go!(cq::Heapy),
-        _ => go!(cq::FaultyDrop),
+        14 => go!(cq::FaultyDrop),
+        15 => go!(cq::P40A32D),
+        _ => go!(cq::P64A64D),
     };
     match r {
         Err(f) => Outcome::failed(f),
@@ -104,7 +106,7 @@ impl Prop for C15 {
     type Case = Case;
 
     fn rule() -> String {
-        "proptest histories (the C01 op generator) x 15 payload types (1 byte .. 2000 bytes, align 1..16, with/without destructor, one owning heap \
+        "proptest histories (the C01 op generator) x 17 payload types (1 byte .. 2000 bytes, align 1..64, with/without destructor, one owning heap \
          memory, one whose destructor panics on demand during a cancel) x page sizes {system, 4K, 8K, 16K, 256..2048} x queue parameterisations, optionally dropping the queue with events pending; oracle = \
          after ops the hook snapshot must show pairwise disjoint, aligned, in-page live nodes (incl. the 2n sentinels), disjoint in-page free regions, \
          allocated_mem == live*node size; payload bytes intact on fetch; per-payload drop counter exactly 1 after fetch/cancel/queue drop and 0 while \
